@@ -56,6 +56,11 @@ def _only_stages(func, call, depth=0):
     d = dotted(call.func) or ''
     if d.startswith('self.operation_recorder_') or d == 'self._verify_open':
         return True
+    if d == 'dict' and not call.args and all(
+            k.arg is not None and isinstance(k.value, (ast.Name,
+                                                       ast.Constant))
+            for k in call.keywords):
+        return True     # builds a dictionary of names: cannot raise
     h = _helper_of(func, call) if depth < 2 else None
     if h is None:
         return False
@@ -737,6 +742,35 @@ def staged_args_rule(repo, rep):
         c = calls[0]
         star = [norm(k.value) for k in c.keywords if k.arg is None]
         kws = {k.arg: norm(k.value) for k in c.keywords if k.arg}
+        # `**args` of a local dictionary that is built once (dict(k=v, ...)
+        # or a literal with constant keys) and only used here
+        fnode = Flat(f).node
+        for k in c.keywords:
+            if k.arg is not None or not isinstance(k.value, ast.Name):
+                continue
+            nm = k.value.id
+            uses = [n for n in walk_no_nested(fnode)
+                    if isinstance(n, ast.Name) and n.id == nm]
+            defs = [n for n in walk_no_nested(fnode)
+                    if isinstance(n, ast.Assign) and len(n.targets) == 1 and
+                    norm(n.targets[0]) == nm]
+            if len(defs) != 1 or len(uses) != 2:
+                continue
+            d = defs[0].value
+            pairs = None
+            if isinstance(d, ast.Call) and dotted(d.func) == 'dict' and \
+                    not d.args and all(x.arg for x in d.keywords):
+                pairs = [(x.arg, x.value) for x in d.keywords]
+            elif isinstance(d, ast.Dict) and all(
+                    kk is not None and const_str(kk) is not None
+                    for kk in d.keys):
+                pairs = [(const_str(kk), v) for kk, v in zip(d.keys,
+                                                             d.values)]
+            if pairs is None:
+                continue
+            star.remove(nm)
+            for kk, v in pairs:
+                kws[kk] = norm(v)
         missing = [p for p in ps if p not in kws and p not in star]
         wrong = ['%s=%s' % (k, v) for k, v in kws.items()
                  if k != 'method' and v != k]
